@@ -126,6 +126,34 @@ pub fn handle(op: &str, req: &Value) -> Option<Value> {
             }
             json!({"problems": bad, "violates": !bad.is_empty()})
         },
+        // I1: rows inserted BEFORE the index is created must be found through it
+        "relational_index_build" => {
+            let mut bad: Vec<String> = vec![];
+            // with and without a deleted row in front (slab ids and row ids then no longer line up with positions)
+            for delete_first in [false, true] {
+                let e = RelationalEngine::new();
+                let cols = vec![Column::new("name", ColumnType::String), Column::new("age", ColumnType::Int)];
+                if let Err(err) = e.create_table("people", Schema::new(cols)) { return Some(json!({"error": err.to_string()})); }
+                let n = req["rows"].as_u64().unwrap_or(3).max(2) as i64;
+                for i in 0..n {
+                    let _ = e.insert("people", HashMap::from([("name".to_string(), RV::String(format!("n{i}"))), ("age".to_string(), RV::Int(10 * (i % 3)))]));
+                }
+                if delete_first { let _ = e.delete_rows("people", Condition::Eq("name".to_string(), RV::String("n0".to_string()))); }
+                let r = if req["kind"].as_str() == Some("btree") { e.create_btree_index("people", "age") } else { e.create_index("people", "age") };
+                if let Err(err) = r { return Some(json!({"error": err.to_string()})); }
+                let all = e.select("people", Condition::True).unwrap_or_default();
+                let age = |r: &relational_engine::Row| match r.get("age") { Some(RV::Int(v)) => *v, _ => -1 };
+                for v in [0i64, 10, 20] {
+                    let want: Vec<u64> = { let mut w: Vec<u64> = all.iter().filter(|r| age(r) == v).map(|r| r.id).collect(); w.sort(); w };
+                    let got: Vec<u64> = { let mut g: Vec<u64> = e.select("people", Condition::Eq("age".to_string(), RV::Int(v))).unwrap_or_default().iter().map(|r| r.id).collect(); g.sort(); g };
+                    if got != want { bad.push(format!("age = {v}: rows {got:?} through the index, {want:?} by scan")); }
+                    let want_ge = all.iter().filter(|r| age(r) >= v).count();
+                    let got_ge = e.select("people", Condition::Ge("age".to_string(), RV::Int(v))).map(|r| r.len()).unwrap_or(usize::MAX);
+                    if got_ge != want_ge { bad.push(format!("age >= {v}: {got_ge} rows through the index, {want_ge} by scan")); }
+                }
+            }
+            json!({"problems": bad, "violates": !bad.is_empty()})
+        },
         "relational_rollback" => {
             // U1: a table with a hash and an ordered index on x; one transaction performing, on ONE row where possible, the
             // statements whose undo entries the witness lists (so that the order of undo matters); rollback; every row and every
